@@ -1537,7 +1537,8 @@ class SpaceManager(SharedSpaceOperations):
                     subvalue = self._graph.get_relative(
                         subspace.idstr, space.idstr,
                         basevalue)
-                    if not subvalue:
+                    if (not subvalue
+                            or self.model.get_impl_from_name(subvalue) is None):
                         raise ValueError(
                             "Cannot create relative reference for '%s' in '%s'"
                             % (basevalue, subspace.idstr)
